@@ -780,6 +780,10 @@ def _validate(obl, model, numeric, seed):
             errors[str(ex)[:60]] = errors.get(str(ex)[:60], 0) + 1
             env.pop("__cmp__", None)
             continue
+        if differs and not _stable(obl, numeric, env, expected, got):
+            errors["ill-conditioned sample (values change under a 1e-10 perturbation of the input)"] = errors.get(
+                "ill-conditioned sample (values change under a 1e-10 perturbation of the input)", 0) + 1
+            continue
         if differs and env.get("__opaque_used__"):
             opaque_differs += 1   # not a counterexample (the opaque values may be unrealisable): the refutation stands
             continue
@@ -854,6 +858,30 @@ def _differs(obl, numeric, env, memo):
             raise Inadmissible("no spec case applies")
         return (not close(got, exp)), exp, got
     return (not _b(ev(obl.goal, env, memo))), None, None
+
+
+def _stable(obl, numeric, env, expected, got):
+    """a disagreement only counts on a WELL-CONDITIONED sample: both values must survive a relative 1e-10 perturbation of the
+    array inputs (rank decisions on exactly rank-deficient matrices, ties of a sort, ... flip with rounding noise and say
+    nothing about the code)"""
+    if "code" not in numeric or expected is None:
+        return True
+    rng = np.random.default_rng(12345)
+    for _ in range(2):
+        e2 = {}
+        for k, v in env.items():
+            if isinstance(v, np.ndarray) and v.dtype == np.float64 and not k.startswith("__"):
+                e2[k] = v * (1.0 + 1e-10 * rng.standard_normal(v.shape))
+            else:
+                e2[k] = v
+        e2["__cmp__"] = None
+        try:
+            d2, exp2, got2 = _differs(obl, numeric, e2, {})
+        except (Unknown, Inadmissible):
+            return False
+        if not (close(np.asarray(exp2), np.asarray(expected), rtol=1e-4) and close(np.asarray(got2), np.asarray(got), rtol=1e-4)):
+            return False
+    return True
 
 
 def _jsonable_val(v):
